@@ -48,16 +48,19 @@ type faults struct {
 var errFrozen = errors.New("verif: process stopped (store frozen)")
 
 // allow is called before a mutating call; false means the process is considered dead.
+// The process is considered dead from the first refused write on: the goroutine attempting it ends there
+// (runtime.Goexit, its deferred functions run), as it would with the process; it does not get a store error to handle -
+// a stopped process handles nothing. The harness then stops what is left of the node and restarts it.
 func (f *faults) allow(name string) bool {
 	if f.frozen {
-		return false
+		runtime.Goexit()
 	}
 	if f.freezeAt >= 0 && f.writes >= f.freezeAt {
 		f.frozen = true
 		if f.onFreeze != nil {
 			f.onFreeze()
 		}
-		return false
+		runtime.Goexit()
 	}
 	f.writes++
 	f.log = append(f.log, name)
